@@ -54,7 +54,7 @@ def epsilon : F32 := ofRat (1/20)
 def setTime (g : Glide) (t : F32) : Option Glide :=
   if le (fabs (sub t g.cachedT)) epsilon then some g
   else
-    let f0 := F32.min (F32.max (div one t) g.minFc) g.maxFc
+    let f0 := F32.fmin (F32.fmax (div one t) g.minFc) g.maxFc
     match mkCoeffs g.fs f0 with
     | none => none
     | some c => some { g with cachedT := t, coeffs := c }
